@@ -98,7 +98,8 @@ Definition obs_gateway (kw : option obj) (textx : option str) : json :=
     | Err e => JArr [jerr e]
     | Ok g =>
       let t := gw_to_json g in
-      JArr [ jopt JObj g; jopt JStr t; jres (jopt JObj) (gw_from_json VA t); jres (jopt JObj) (gw_from_json VA textx) ]
+      let gview := jopt (fun g' : option obj => JArr [JStr (S"gw"); jopt JObj g']) in    (* absent = JNull *)
+      JArr [ jopt JObj g; jopt JStr t; jres gview (gw_from_json VA t); jres gview (gw_from_json VA textx) ]
     end
   end.
 
